@@ -15,6 +15,8 @@ from .sdcodec import SD
 
 
 def check(run, prog, tier):
+    from . import model as _model
+    _model.audit(run, prog, 'C02')
     run.explanation = (
         "Each codec pair is reduced to a writer layout term and a reader binding table and compared with the "
         "SOME/IP-SD layout per wire position; guards and framing are decided by evaluating the extracted path "
